@@ -3,6 +3,7 @@ import IstioModel.C02.Model
 import IstioModel.C02.Queue
 import IstioModel.C02.Debounce
 import IstioModel.C02.Sender
+import IstioModel.C02.Pipe
 
 /-! Line-protocol driver for C02 (stream `merge`; see harness/c02).  Objects are declared by `set`,
     `rsn`, `req` lines (ids are positions in the per-type stores, in declaration order) and then
@@ -55,6 +56,13 @@ structure DState where
   snd : Sender := {}             -- the sender system of a `sender` case (its queue's heap is authoritative there)
   started : Bool := false        -- doSendPushes has been started
   stream : String := ""
+  pipe : Pipe := {}              -- the composed pipeline of a `server` case
+  sheld : List Conn := []        -- connection parked between addCon and MarkInitialized
+  sblocked : List Conn := []     -- clients whose Send blocks (they stopped reading)
+  sfailing : List Conn := []     -- clients whose next Send fails
+  sdead : List Conn := []        -- stream ended (by the rule of the ops)
+  sn : Nat := 0                  -- connections opened so far
+  sended : Bool := false
 
 /-- `nil`, `last`, or an index below `n`. -/
 def parseRef (n : Nat) (last : Option Ref) (t : String) : Option (Option Ref) :=
@@ -407,14 +415,142 @@ def stepSender (s0 : DState) (toks : List String) : DState × String :=
     ({ s with snd := x4, heap := x4.q.heap }, showSender s.nconn x4 ++ " verdict=OK")
   | _ => stepMerge s toks
 
+/-! ### stream `server`
+
+A real DiscoveryServer runs the whole pipeline by itself; the harness reports, at rest, which facts
+reached `Event.pushRequest` of each live connection.  The composed model (`Pipe.lean`) is driven to
+rest with the same script: every hand-over (`recv`, `startPush`), every hidden debounce / sender
+event, and - for clients that are reading - `deliver` followed by what the stream loop does with
+the event: `done()` after a push that succeeded **or failed**, nothing while `Send` blocks. -/
+
+def factStr : Fact → String
+  | .cfg k => "c:" ++ k
+  | .adr k => "a:" ++ k
+  | .wp k => "w:" ++ k
+  | .forced => "forced"
+
+def pev (p : Pipe) (e : PEv) : Pipe := (stepP p e).getD p
+
+def hasDelivered (p : Pipe) (c : Conn) : Bool := p.snd.delivered.any (fun f => f.1 == c)
+
+/-- The client's stream ends: context done, connection unregistered, a `Send` it was blocked in returns. -/
+def srvKill (s : DState) (c : Conn) : DState :=
+  let p1 := pev (pev s.pipe (.snd (.close c))) (.unregister c)
+  let p2 := if hasDelivered p1 c then pev p1 (.snd (.pushDone c)) else p1
+  { s with pipe := p2, sdead := if s.sdead.contains c then s.sdead else s.sdead ++ [c]
+           sblocked := s.sblocked.filter (· ≠ c), sheld := s.sheld.filter (· ≠ c) }
+
+def srvStep (s : DState) : Option DState :=
+  let p := s.pipe
+  if !p.chan.isEmpty then some { s with pipe := pev p .recv }
+  else if !p.toStart.isEmpty then some { s with pipe := pev p .startPush }
+  else if !p.db.edsRunning.isEmpty then some { s with pipe := pev p (.deb .edsReturn) }
+  else if !p.db.running.isEmpty then some { s with pipe := pev p (.deb .pushReturn) }
+  else if p.db.freeTok then some { s with pipe := pev p (.deb .freeRecv) }
+  else match p.db.req, p.db.timerAt with
+    | some _, some t => some { s with pipe := pev (pev p (.deb (.tick (t + p.opts.after + p.opts.max)))) (.deb .timer) }
+    | _, _ =>
+      match settleStep p.snd with
+      | some snd' => some { s with pipe := { p with snd := snd' } }
+      | none =>
+        -- a parked push event whose client is reading
+        match p.snd.parked.find? (fun f => !s.sheld.contains f.1 && !p.snd.closed f.1 && !hasDelivered p f.1) with
+        | none => none
+        | some f =>
+          let c := f.1
+          let forced := ((viewAt p.snd.q.heap f.2).map (·.forced)).getD false
+          let p1 := pev p (.snd (.deliver c))
+          if forced && s.sblocked.contains c then some { s with pipe := p1 }   -- stuck in Send
+          else
+            let s1 := { s with pipe := pev p1 (.snd (.pushDone c)) }             -- done(), push ok or not
+            if forced && s.sfailing.contains c then some (srvKill s1 c)         -- Send failed: the loop returns the error
+            else some s1
+
+def srvSettle : Nat → DState → DState
+  | 0, s => s
+  | n + 1, s => match srvStep s with
+    | some s' => srvSettle n s'
+    | none => s
+
+def srvSummary (s : DState) : String :=
+  if s.sn == 0 then "-" else
+  " ".intercalate ((List.range s.sn).map (fun c =>
+    if s.sdead.contains c then s!"{c}=dead" else s!"{c}={encSet ((s.pipe.seen c).map factStr)}"))
+
+def srvStuck (s : DState) : Bool :=
+  !s.sheld.isEmpty || s.sblocked.any (fun c => !s.sdead.contains c)
+
+def srvRelease (s : DState) : DState := { s with sheld := [] }
+
+def srvUnblock (s : DState) (c : Conn) : DState :=
+  let s1 := { s with sblocked := s.sblocked.filter (· ≠ c) }
+  if hasDelivered s1.pipe c then
+    let s2 := { s1 with pipe := pev s1.pipe (.snd (.pushDone c)) }
+    if s2.sfailing.contains c then srvKill s2 c else s2
+  else s1
+
+def stepServer (s : DState) (toks : List String) : DState × String :=
+  match toks with
+  | ["update", f, ks] =>
+    if s.sended then (s, "bad-op") else
+    let v : View := { configs := some (decList ks), forced := tokBool f, reason := some [("config", 1)] }
+    let s1 := if s.pipe.chan.length < chanCap then s else srvSettle 1000 s   -- ConfigUpdate blocks while the channel is full
+    ({ s1 with pipe := pev s1.pipe (.configUpdate v) }, "ok")
+  | [op, i, kind] =>
+    if (op != "conn" && op != "connheld") || (kind != "sotw" && kind != "delta") || s.sended then (s, "bad-op") else
+    match i.toNat? with
+    | none => (s, "bad-op")
+    | some i =>
+      if i != s.sn || (op == "connheld" && !s.sheld.isEmpty) then (s, "bad-op") else
+      ({ s with pipe := pev s.pipe (.register i), sn := s.sn + 1, sheld := if op == "connheld" then [i] else s.sheld }, "ok")
+  | ["release", i] =>
+    match i.toNat? with
+    | some i => if s.sheld == [i] then (srvRelease s, "ok") else (s, "bad-op")
+    | none => (s, "bad-op")
+  | ["failsend", i] =>
+    match i.toNat? with
+    | some i => if i < s.sn && !s.sheld.contains i then ({ s with sfailing := s.sfailing ++ [i] }, "ok") else (s, "bad-op")
+    | none => (s, "bad-op")
+  | ["blocksend", i] =>
+    match i.toNat? with
+    | some i => if i < s.sn && !s.sblocked.contains i then ({ s with sblocked := s.sblocked ++ [i] }, "ok") else (s, "bad-op")
+    | none => (s, "bad-op")
+  | ["unblock", i] =>
+    match i.toNat? with
+    | some i => if i < s.sn && s.sblocked.contains i then (srvUnblock s i, "ok") else (s, "bad-op")
+    | none => (s, "bad-op")
+  | ["closectx", i] =>
+    match i.toNat? with
+    | some i => if i < s.sn then (srvKill s i, "ok") else (s, "bad-op")
+    | none => (s, "bad-op")
+  | ["pushed"] => (s, "ok")
+  | ["sync"] =>
+    if srvStuck s || s.sended then (s, "bad-op") else
+    let s1 := srvSettle 100000 s
+    (s1, srvSummary s1)
+  | ["end"] =>
+    if s.sended then (s, "bad-op") else
+    let s0 := srvRelease s
+    let s1 := (s0.sblocked.filter (fun c => !s0.sdead.contains c)).foldl srvUnblock s0
+    let s2 := srvSettle 100000 { s1 with sblocked := [] }
+    let held := ((List.range s2.sn).filter (fun c => (s2.pipe.snd.q.processing c).isSome)).length
+    ({ s2 with sended := true }, s!"{srvSummary s2} held={held} verdict=OK")
+  | _ => (s, "bad-op")
+
 def step (s : DState) (toks : List String) : DState × String :=
   match toks with
   | "case" :: _ :: "queue" :: n :: _ => ({ nconn := n.toNat?.getD 0 }, "ok")
+  | "case" :: _ :: "server" :: _ =>
+    -- the real server: DebounceAfter 3 ms, debounceMax 10 s, EDS debounce on, push throttle 100, sender running
+    ({ stream := "server", pipe := { opts := { after := 3, max := 10000, eds := true },
+                                     snd := settle 10 { cap := 100 } } }, "ok")
   | "case" :: _ :: "sender" :: n :: cap :: _ =>
     ({ nconn := n.toNat?.getD 0, snd := { cap := cap.toNat?.getD 1 }, stream := "sender" }, "ok")
   | "case" :: _ :: "debounce" :: a :: m :: e :: _ =>
     ({ dopts := { after := a.toNat?.getD 0, max := m.toNat?.getD 0, eds := tokBool e } }, "ok")
   | "case" :: _ => ({}, "ok")
-  | _ => if s.stream == "sender" then stepSender s toks else stepDebounce s toks
+  | _ => if s.stream == "sender" then stepSender s toks
+         else if s.stream == "server" then stepServer s toks
+         else stepDebounce s toks
 
 end IstioModel.C02
